@@ -8,6 +8,7 @@ PROPS_VO = 'Props/C16.vo'
 GENERATORS = {}
 COQ_CASE_TYPE = 'case'
 COQ_AGREE = 'agree'
+COQ_SHARD = 40
 REPLAY_KIND = 'history'
 EXHAUSTIVE = {'quick': False, 'thorough': False}
 RULE = ('seeded random histories (3..45 operations) dominated by the lazy-update class: assign / multi-column set (also empty, invalid) / '
@@ -36,7 +37,7 @@ def corpus():
 
 
 def generate(rng, tier):
-    n = 1500 if tier == 'quick' else 30000
+    n = 800 if tier == 'quick' else 20000
     return [L.gen_history(rng, PROFILE, rng.randint(3, 45)) for _ in range(n)]
 
 
